@@ -8,13 +8,12 @@ open Torf Torf.Export
 variable (urlOk : Bytes → Bool) (fs : FsOracle)
 
 theorem checkFileOnDisk_err {x : PyVal} {i : Nat} {e : ErrKind} (hx : EntryFacts x)
-    (hj : entryJoinable x = true) (hs : Small x) (h : checkFileOnDisk fs i x = .error e) :
+    (hj : entryJoinable x = true) (h : checkFileOnDisk fs i x = .error e) :
     e = .metainfo := by
-  obtain ⟨en, l, len, p, comps, rfl, hl, _, _, hnum, _, _, hp, hpi, hcomps, _⟩ := hx
+  obtain ⟨en, l, len, p, comps, rfl, hl, _, _, hnum, _, hp, hpi, hcomps, _⟩ := hx
   obtain ⟨comps', hcomps', hie⟩ := iterE_of_isIterable hpi
   have hjo : joinable comps' = true := by
     simpa [entryJoinable, hp, hcomps'] using hj
-  have hsl : Small l := hs.getItem (getItem_dict_s_some hl)
   unfold checkFileOnDisk at h
   simp only [bind, Except.bind, getE_ok (getItem_dict_s_some hp), hie, hjo, Bool.not_true,
     Bool.false_eq_true, if_false, pure, Except.pure, getE_ok (getItem_dict_s_some hl), hnum] at h
@@ -23,7 +22,7 @@ theorem checkFileOnDisk_err {x : PyVal} {i : Nat} {e : ErrKind} (hx : EntryFacts
   · split at h
     · simpa [throw, throwThe, MonadExceptOf.throw, eq_comm] using h
     · split at h
-      · exact raiseRepr_err hsl h
+      · simpa [throw, throwThe, MonadExceptOf.throw, eq_comm] using h
       · exact absurd h (by simp)
 
 /-- what the multi-file branch establishes -/
@@ -33,54 +32,23 @@ def MultiFacts (info : Items) (plen : Nat) : Prop :=
     PyVal.lookupStr "piece length" info = some pv ∧
     ((plen / 20 : Nat) : Int) = expPieces ((files.map fileLen).sum) (intVal pv)
 
-/-- the entries of a sequence weigh no more than the sequence -/
-theorem sumAbsList_iter {fl : PyVal} {files : List PyVal} (hd : fl.isDict = false)
-    (hi : pyIter fl = some files) (hf : ∀ x ∈ files, EntryFacts x) :
-    sumAbsList files ≤ sumAbs fl := by
-  cases fl with
-  | dict _ => simp [PyVal.isDict] at hd
-  | list l => simp only [pyIter, Option.some.injEq] at hi; subst hi; simp [sumAbs]
-  | tuple l => simp only [pyIter, Option.some.injEq] at hi; subst hi; simp [sumAbs]
-  | bytes b =>
-    simp only [pyIter, Option.some.injEq] at hi; subst hi
-    cases b with
-    | nil => simp [sumAbsList]
-    | cons y t =>
-      obtain ⟨e, _, _, _, _, he, _⟩ := hf (.int y.toNat) (by simp)
-      exact absurd he (by simp)
-  | str s =>
-    simp only [pyIter, Option.some.injEq] at hi; subst hi
-    cases hs : s.toList with
-    | nil => simp [sumAbsList]
-    | cons y t =>
-      obtain ⟨e, _, _, _, _, he, _⟩ := hf (.str y.toString) (by simp [hs])
-      exact absurd he (by simp)
-  | none => simp [pyIter] at hi
-  | bool _ => simp [pyIter] at hi
-  | int _ => simp [pyIter] at hi
-  | float _ => simp [pyIter] at hi
-  | datetime _ => simp [pyIter] at hi
-  | other _ => simp [pyIter] at hi
-
 theorem checkMulti_cases {items info : Items} (cf : CommonFacts urlOk items info) (plen : Nat)
     (hnm : ∀ fl, PyVal.lookupStr "files" info = some fl → fl.isDict = false)
     (r : Except ErrKind Unit) (h : checkMulti fs (.dict items) (.dict info) plen = r) :
     (r = .ok () → MultiFacts info plen) ∧
-    (∀ e, r = .error e → Small (.dict items) →
+    (∀ e, r = .error e →
       (fs.hasPath = true → ∀ fl files, PyVal.lookupStr "files" info = some fl →
         pyIter fl = some files → ∀ x ∈ files, entryJoinable x = true) → e = .metainfo) := by
   subst h
-  have hsi : Small (.dict items) → Small (.dict info) :=
-    fun hs => hs.getItem (getItem_dict_s_some cf.hinfo)
   obtain ⟨pv, hpv, _, hpd⟩ := cf.pieceLength
   unfold checkMulti
   rw [assertType_info cf.hinfo]
   cases h1 : assertFinal (.dict info) (.s "files") { types := PyVal.isIterable } with
   | error e1 =>
-    refine ⟨fun h => absurd h (by simp [bind, Except.bind]), fun e h hs _ => ?_⟩
+    refine ⟨fun h => absurd h (by simp [bind, Except.bind]), fun e h _ => ?_⟩
     simp only [bind, Except.bind, Except.error.injEq] at h
     subst h
-    exact assertFinal_dict_err (hsi hs) h1
+    exact assertFinal_dict_err h1
   | ok _ =>
     obtain ⟨fl, hfl, hflp⟩ := (assertFinal_dict_ok h1).2 rfl
     have hfli : fl.isIterable = true := by simpa [passes] using hflp
@@ -89,12 +57,12 @@ theorem checkMulti_cases {items info : Items} (cf : CommonFacts urlOk items info
     simp only [bind, Except.bind, getE_ok (getItem_dict_s_some hfl), hie]
     cases h2 : forEnum (checkFile (.dict items)) 0 files with
     | error e2 =>
-      refine ⟨fun h => absurd h (by simp), fun e h hs _ => ?_⟩
+      refine ⟨fun h => absurd h (by simp), fun e h _ => ?_⟩
       simp only [Except.error.injEq] at h
       subst h
       obtain ⟨j, x, hx, hf⟩ := forEnum_err h2
       rw [Nat.zero_add] at hf
-      exact (checkFile_cases cf.hinfo hfl (getItem_of_iter hnd hfiles hx) _ hf).2 _ rfl hs
+      exact (checkFile_cases cf.hinfo hfl (getItem_of_iter hnd hfiles hx) _ hf).2 _ rfl
     | ok _ =>
       have hfacts : ∀ x ∈ files, EntryFacts x := by
         intro x hx
@@ -103,14 +71,12 @@ theorem checkMulti_cases {items info : Items} (cf : CommonFacts urlOk items info
         rw [Nat.zero_add] at this
         exact (checkFile_cases cf.hinfo hfl (getItem_of_iter hnd hfiles hj) _ this).1 rfl
       have hpos := pieceLength_pos hpd
-      obtain ⟨ht0, htle⟩ := totalLen_bounds files hfacts
-      have hexp := expPieces_le ht0 hpos.1
       simp only [sumLengths_ok files 0 hfacts, Int.zero_add, getE_ok (getItem_dict_s_some hpv)]
       by_cases hc : ((plen / 20 : Nat) : Int) = expPieces ((files.map fileLen).sum) (intVal pv)
       · constructor
         · intro _
           exact ⟨fl, files, pv, hfl, hfli, hfiles, hfacts, hpv, hc⟩
-        · intro e h hs hjoin
+        · intro e h hjoin
           simp only [hc, ne_eq, not_true_eq_false, if_false, pure, Except.pure] at h
           split at h
           · rename_i hp
@@ -118,21 +84,11 @@ theorem checkMulti_cases {items info : Items} (cf : CommonFacts urlOk items info
             · simpa [throw, throwThe, MonadExceptOf.throw, eq_comm] using h
             · obtain ⟨j, x, hx, hf⟩ := forEnum_err h
               have hxm := List.mem_of_getElem? hx
-              have hsx : Small x := ((hsi hs).getItem (getItem_dict_s_some hfl)).getItem
-                (getItem_of_iter hnd hfiles hx)
-              exact checkFileOnDisk_err fs (hfacts x hxm) (hjoin hp fl files hfl hfiles x hxm) hsx hf
+              exact checkFileOnDisk_err fs (hfacts x hxm) (hjoin hp fl files hfl hfiles x hxm) hf
           · exact absurd h (by simp)
       · simp only [hc, ne_eq, not_false_eq_true, if_true]
-        cases hr : (raiseInt (expPieces ((files.map fileLen).sum) (intVal pv)) : Except ErrKind Unit) with
-        | ok _ => exact absurd hr raiseInt_ne_ok
-        | error e' =>
-          refine ⟨fun h => absurd h (by simp), fun e h hs _ => ?_⟩
-          simp only [Except.error.injEq] at h
-          subst h
-          have hsl : Small fl := (hsi hs).getItem (getItem_dict_s_some hfl)
-          have := sumAbsList_iter hnd hfiles hfacts
-          unfold Small at hsl
-          exact raiseInt_err (by omega) hr
+        refine ⟨fun h => absurd h (by simp [throw, throwThe, MonadExceptOf.throw]), fun e h _ => ?_⟩
+        simpa [throw, throwThe, MonadExceptOf.throw, eq_comm] using h
 
 theorem lookupNat_some_key {n : Nat} {l : Items} {v : PyVal} (h : lookupNat n l = some v) :
     ∃ k ∈ l.map (·.1), keyEqNat n k = true := by
@@ -181,9 +137,7 @@ theorem checkMulti_not_dict {items info : Items} (cf : CommonFacts urlOk items i
         rw [h0] at h
         have hne : ((plen / 20 : Nat) : Int) ≠ 0 := by omega
         simp only [ne_eq, hne, not_false_eq_true, if_true] at h
-        cases hr : (raiseInt 0 : Except ErrKind Unit) with
-        | ok _ => exact absurd hr raiseInt_ne_ok
-        | error e' => rw [hr] at h; exact absurd h (by simp)
+        exact absurd h (by simp [throw, throwThe, MonadExceptOf.throw])
       | cons kv t =>
         -- every key is subscriptable with 'path', so every key is a dict
         have hkeys : ∀ k ∈ (kv :: t).map (·.1), k.isDict = true := by
